@@ -29,6 +29,7 @@ func (e *Exec) rangeOp(fr *Frame, st *State, in *ssa.Range) Val {
 func (e *Exec) nextOp(fr *Frame, st State, in *ssa.Next) []Outcome {
 	return e.nextConst(fr, st, in)
 }
+
 type civil struct{ y, m, d *Term }
 
 func (e *Exec) externalEnv(fr *Frame, st State, fn *ssa.Function, args []Val, pos token.Pos) ([]Outcome, bool) {
@@ -375,6 +376,7 @@ func (e *Exec) externalInvokeEnv(fr *Frame, st State, cc *ssa.CallCommon, recv V
 	}
 	return nil, false
 }
+
 // []rune(s): assumed contract — a fresh slice of at most len(s) runes; for ASCII-only
 // strings exactly one rune per byte (stated as a quantified fact).
 func (e *Exec) stringToRunes(fr *Frame, st *State, x Val) Val {
